@@ -83,7 +83,7 @@ def gen_case(rng, max_ops, mirror=False, ncomp=5):
         ws = rng.choice(wss)
         kind = rng.weighted([("ins", 22), ("ext", 12), ("rem", 18), ("ead", 8), ("erm", 8), ("wrt", 6),
                              ("clr", 2), ("shr", 3), ("rsv", 3), ("rset", 2), ("cln", 3), ("clf", 3),
-                             ("srd", 4), ("eq", 3), ("drop", 1), ("new", 1), ("qry", 9), ("eqry", 4), ("nqry", 5), ("qwr", 3), ("mde", 6), ("pqry", 7), ("pqwr", 3), ("erm2", 4)])
+                             ("srd", 4), ("eq", 3), ("drop", 1), ("new", 1), ("qry", 9), ("eqry", 4), ("nqry", 5), ("qwr", 3), ("mde", 6), ("pqry", 7), ("pqwr", 3), ("erm2", 4), ("xrg", 2)])
         if kind == "ins":
             mask = rng.choice(palette) if rng.chance(5, 6) else anymask()
             desc = rng.below(2)
@@ -93,6 +93,19 @@ def gen_case(rng, max_ops, mirror=False, ncomp=5):
             live[ws].add(issued[0])
             issued[0] += 1
             freec[ws] = max(0, freec[ws] - 1)
+        elif kind == "xrg":
+            # ragged batch through the safe constructor: must be refused
+            mask = rng.choice([m_ for m_ in palette if bin(m_).count("1") >= 2]
+                              or ([3] if NCOMP == 5 else [m_ for m_ in PALETTE16 if bin(m_).count("1") >= 2]))
+            desc = rng.below(2)
+            cs = comps_of(mask, desc)
+            desc = desc if len(cs) <= 6 else 0
+            rows = 1 + rng.below(3)
+            j = len(cs) - 1 - rng.below(min(len(cs), 3)) if rng.chance(2, 3) else rng.below(len(cs))
+            longer = rng.below(2)
+            nvals = rows * len(cs) + (1 if longer else -1)
+            lines.append("xrg %d %d %d %s %d %d %d %s" % (ws, desc, len(cs), " ".join(map(str, cs)), rows, j, longer,
+                                                       " ".join(str(fresh()) for _ in range(nvals))))
         elif kind == "ext":
             mask = rng.choice(palette) if rng.chance(5, 6) else anymask()
             desc = rng.below(2)
@@ -867,7 +880,7 @@ class RefWorlds:
         t = step["op"].split()
         k = t[0]
         ret = step["ret"] or ""
-        if ret == "panic":
+        if ret == "panic" and k != "xrg":
             fails.append(("C01", "operation panicked: " + step["op"]))
             return fails, known
         if k == "new":
@@ -918,6 +931,11 @@ class RefWorlds:
                         self.maps[ws][e] = {c: norm_val(c, int(t[base + r * n + j])) for j, c in enumerate(cs)}
                     if len(set(ids)) != len(ids):
                         fails.append(("C02", "extend returned a repeated identifier"))
+        elif k == "xrg":
+            if int(t[1]) in self.maps and not (ret or "").startswith("panic"):
+                fails.append(("C05", "Batch::new accepted columns of unequal length (%s): the column store now holds columns that disagree with the shared length" % ret))
+                fails.append(("C18", "Batch::new accepted columns of unequal length (%s)" % ret))
+                fails.append(("C01", "Batch::new accepted columns of unequal length (%s)" % ret))
         elif k == "rem":
             ws = int(t[1])
             if ws in self.maps:
@@ -1061,6 +1079,10 @@ class RefWorlds:
             ref = self.maps[ws]
             if dup:
                 fails.append(("C13", "identifier stored twice: %s" % dup))
+                fails.append(("C02", "one identifier attached to two rows: %s" % dup))
+            ghost = sorted((set(m) & set(self.issued)) - set(w["live"]))
+            if ghost:
+                fails.append(("C02", "world %d: rows carry identifiers the world does not resolve: %s" % (ws, ghost[:4])))
             if m != ref:
                 extra = sorted(set(m) - set(ref))
                 missing = sorted(set(ref) - set(m))
@@ -1233,19 +1255,22 @@ def oracle_case(impl_case):
                 if twice:
                     fails.append((i, "C11", "failed deserialization dropped values it never created or dropped them twice: %s" % sorted(twice.elements())[:6]))
                 if leaked:
-                    hr = st["op"].split()[2] == "1"
-                    row_cells = set()
-                    for a in content["archs"]:
-                        if a["poison"]:
-                            cs = [c for c in range(nreg) if len(a["bytes"]) * 8 > c and a["bytes"][c // 8] >> (c % 8) & 1]
-                            ri, cj = a["poison"]
-                            vals = a["rows"][ri][1]
-                            row_cells |= {"%d:%d" % (c, v) for c, v in list(zip(cs, vals))[:cj]}
-                    if hr and content["poison"] and set(leaked) <= row_cells:
-                        known.append((i, "K11"))
-                        k11_leaked.update(leaked)
-                    else:
-                        fails.append((i, "C11", "failed deserialization leaked values: %s (%s)" % (sorted(leaked.elements())[:6], st["ret"][:80])))
+                    # (the class of finding F9 — cells of an incomplete row of a row-wise table — was repaired by
+                    #  /repo commit 6ba6288; a fixed entry suppresses nothing)
+                    fails.append((i, "C11", "failed deserialization leaked values: %s (%s)" % (sorted(leaked.elements())[:6], st["ret"][:80])))
+                    fails.append((i, "C04", "failed deserialization never dropped values it created: %s" % sorted(leaked.elements())[:6]))
+        elif k == "xrg":
+            # every value handed to the refused batch is dropped by the unwinding, once
+            n_ = int(t[3])
+            cs_ = [int(x) for x in t[4:4 + n_]]
+            rows_, j_, longer_ = int(t[4 + n_]), int(t[5 + n_]), int(t[6 + n_]) == 1
+            p_ = 7 + n_
+            if (st["ret"] or "").startswith("panic"):
+                for idx_, c_ in enumerate(cs_):
+                    cnt_ = rows_ + ((1 if longer_ else -1) if idx_ == j_ else 0)
+                    for _x in range(cnt_):
+                        exp["D:%d:%d" % (c_, norm_val(c_, int(t[p_])))] += 1
+                        p_ += 1
         elif k in ("qwr", "pqwr"):
             exp = qwr_drops if qwr_drops is not None else Counter()
         else:
@@ -1319,14 +1344,13 @@ def oracle_case(impl_case):
         live = Counter()
         for c_, v_, n_ in _re.findall(r"\(\((\d+), (\d+)\), (-?\d+)\)", aud.split("double=")[0]):
             live["%s:%s" % (c_, v_)] += int(n_)
-        # values leaked by the known finding F9 (class K11) stay live for ever: not a new violation
-        if not ("double=[]" in aud and all(n_ > 0 for n_ in live.values()) and not (live - k11_leaked)):
+        if True:
             fails.append((len(impl_case["steps"]), "C04", "end-of-case ledger audit: " + aud))
     # C05: allocator audit (layouts, double/invalid frees during the case; every library block returned at the end)
     probs, leaks = alloc_problems(impl_case)
     for i_, x_ in probs:
         fails.append((i_, "C05", "allocator audit: " + x_))
-    if leaks and not k11_leaked:
+    if leaks:
         fails.append((len(impl_case["steps"]), "C05", "memory obtained during the case was not returned after every world was dropped: blocks (size, align) = [%s]" % leaks[:300]))
     return {"fails": fails, "known": known, "corners": corners}
 
